@@ -762,6 +762,82 @@ func runC14Sequential(t *fw.T) {
 			}
 		}
 	}
+	// compilers configured from ONE option list that the caller goes on using (appends to it, overwrites an entry for
+	// the next compiler): each compiler keeps the configuration it was given when it was created
+	if len(trees) > 0 {
+		var ks []*compiler.Compiler
+		wantCfg := []Cfg{{Pretty: true, Spaces: 2}, {Pretty: true, Spaces: 2, NoSemi: true}, {Pretty: true, Tabs: true}, {Pretty: true, Tabs: true, NoSemi: true}}
+		if !t.Guard("compilers from a shared option list", nil, func() {
+			opts := make([]compiler.PrettyPrintOption, 0, 4)
+			opts = append(opts, compiler.WithSpaces(2))
+			ks = append(ks, compiler.New().WithPrettyPrint(opts...))
+			opts2 := append(opts, compiler.WithSemi(false)) // same backing array
+			ks = append(ks, compiler.New().WithPrettyPrint(opts2...))
+			opts[0] = compiler.WithTabs()
+			ks = append(ks, compiler.New().WithPrettyPrint(opts...))
+			opts3 := append(opts, compiler.WithSemi(true))
+			opts3[1] = compiler.WithSemi(false)
+			ks = append(ks, compiler.New().WithPrettyPrint(opts3...))
+			opts3[0], opts3[1] = compiler.WithSpaces(7), compiler.WithSemi(true)
+		}) {
+			return
+		}
+		for _, i := range r.Perm(len(ks)) {
+			prog := trees[r.IntN(len(trees))]
+			var got, want string
+			if !t.Guard("compile", nil, func() { got = ks[i].Compile(prog).Code; want = wantCfg[i].Compile(prog).Code }) {
+				return
+			}
+			t.Count("compilers_created_from_a_shared_option_list", 1)
+			if got != want {
+				t.Violate("compiler-configuration-aliased", "option list", fmt.Sprintf("compiler #%d was created with the options %s from a list the caller went on using for other compilers; it no longer prints like a compiler created with exactly those options", i+1, wantCfg[i]),
+					map[string]any{"expected_config": wantCfg[i].String(), "expected_code": want, "code": got})
+				return
+			}
+		}
+	}
+	// results that were handed out stay what they were: later compilations (same compiler or others) do not rewrite them
+	if len(trees) > 0 {
+		type kept struct {
+			res   compiler.CompileResult
+			code  string
+			maps  string
+			names []string
+		}
+		var keep []kept
+		ok := t.Guard("keep results", nil, func() {
+			k := Cfg{Pretty: true, Spaces: 2, Map: true}.compiler()
+			for round := 0; round < 4; round++ {
+				c := Cfg{Map: true, Pretty: round%2 == 1, Spaces: 2}
+				var res compiler.CompileResult
+				if round < 2 {
+					res = k.Compile(trees[r.IntN(len(trees))])
+				} else {
+					res = c.Compile(trees[r.IntN(len(trees))])
+				}
+				kp := kept{res: res, code: res.Code}
+				if res.SourceMap != nil {
+					kp.maps = res.SourceMap.Mappings
+					kp.names = append([]string{}, res.SourceMap.Names...)
+				}
+				keep = append(keep, kp)
+			}
+		})
+		if !ok {
+			return
+		}
+		for i, kp := range keep {
+			t.Count("handed_out_results_rechecked_after_later_compilations", 1)
+			same := kp.res.Code == kp.code
+			if same && kp.res.SourceMap != nil {
+				same = kp.res.SourceMap.Mappings == kp.maps && reflect.DeepEqual(kp.res.SourceMap.Names, kp.names)
+			}
+			if !same {
+				t.Violate("handed-out-result-rewritten", "source map", fmt.Sprintf("compile result #%d (code, mappings or names) changed after later compilations", i+1), map[string]any{"names_then": kp.names, "names_now": kp.res.SourceMap.Names})
+				return
+			}
+		}
+	}
 	checkPackageTables(t)
 	t.Distinct(fmt.Sprint("seq", idxs))
 }
